@@ -804,7 +804,7 @@ theorem soundP_union (alts : List TraitType) (hQ : SoundQ E alts) : SoundP E (.u
 
 theorem pyEq_none_yes (v : Val) (h : Val.pyEq Val.none v = .yes) : v = Val.none := by
   rcases v with a | ⟨sub, vs⟩ | vs
-  · cases a <;> simp_all [Val.pyEq, Atom.pyEq, Atom.isNp, Atom.num, Atom.exactInt, Atom.asNpDouble]
+  · cases a <;> simp_all [Val.pyEq, Atom.pyEq, Atom.isNp, Atom.num, Atom.exactInt, Atom.asNpDouble, Atom.npBoolVsBigInt]
   · simp [Val.pyEq, Atom.isNp] at h
   · simp [Val.pyEq, Atom.isNp] at h
 
